@@ -88,4 +88,15 @@ CLAIMS = {
           'version the reader refuses are left to C16; files mixing a 997/999 group with others are not claimed. Trusted: TLC, mapexport, concretiser, recorders in lib/walkcommon.py.',
   'technique': 'TLA+ model checking (TLC) of map-language generator x walker model + replay of TLC-generated documents into x12n_document + TLC trace validation of outcomes and walker calls',
  },
+ 'C03': {
+  'text': 'Conformant documents of the real maps come from TLC DocGen (as C02). TLC Fault.tla enumerates over the full exported map every applicable single-fault plan (segment x element x '
+          'component x kind; 15 kinds of the catalogue: too long/short, bad code, bad class, bad date/time, missing required, not-used present, too many (sub-)elements, broken syntax note, '
+          'unknown / missing required / over-max segment, over-max loop) with its locality (a fault on a qualifier element or a segment-level fault is structural); one plan is applied per run '
+          '(value built to break exactly one constraint, SE count kept consistent) and the faulted document validated by the real x12n_document; T_Fault (TLC) judges each record: verdict false, '
+          'an error with a matching standard code at the injected segment and element position, and for local faults nothing else reported, the faulted set rejected and the other sets accepted.',
+  'note': 'Quick: 4 covering documents per map on 6 maps, up to 45 sampled plans per kind and map (~2000 runs); thorough: 40 documents per map on every loadable map, all plans. NotUsedSeg, '
+          'OutOfPlaceSeg and E-type notes are not generated yet; HL/LX counters and qualifier-typed dates are excluded from length/class faults (they would break two constraints). '
+          'Three recorded findings (mis-localised syntax / too-many errors). Trusted: TLC, plan application in lib/c03.py.',
+  'technique': 'TLC enumeration of fault plans over the exported map + injection into TLC-generated documents + TLC trace validation of the recorded error trees and acknowledgements',
+ },
 }
